@@ -73,6 +73,9 @@ package recorder
 //@ func NewConfig
 //@   mode permissive
 //@   allocates
+//@   only [C02,C03,C04,C11] thermalRecorderConfig in Unmarshal#1, store, use:Return
+//@   only [C04,C11] windowsConfig in Unmarshal#3, store, use:Return
+//@   only [C04,C11] windowLocationConfig in Unmarshal#2, store, use:Return
 //@   call New#1 given_after $result.1 == nil ==> $result.0 != nil
 //@   ensures result1 == nil ==> result0 != nil
 //@   check [C11,C03] sitehappened("validate", 1) ==> result1 == nil ==> result0 != nil && result0.MinSecs == thermalRecorderConfig.MinSecs && result0.MaxSecs == thermalRecorderConfig.MaxSecs && result0.PreviewSecs == thermalRecorderConfig.PreviewSecs && result0.ConstantRecorder == thermalRecorderConfig.ConstantRecorder
